@@ -25,6 +25,8 @@ CONCS = [
     {"unit": 8.0, "off": -3, "tbase": 1582930800},     # 2020-02-28T23:00:00 (leap-day rollover inside the axis)
     {"unit": 0.25, "off": 100, "tbase": 1577577600},   # 2019-12-29
     {"unit": 1.0, "off": 7, "tbase": 946684799},       # 1999-12-31T23:59:59
+    {"unit": 1.0, "off": 0, "tbase": 7258118461},      # 2200-01-01T00:01:01 (nanosecond stamps beyond 2^53)
+    {"unit": 0.25, "off": 0, "tbase": -5364662339},    # 1800-01-01T00:01:01
 ]
 
 
@@ -56,6 +58,8 @@ def owners(clause, e):
             out.add("C17")
     if carrier_variant:
         out = {"C15"}
+    if e.get("origin_shift") and clause in ("rule", "rel"):
+        out = {"C17"}            # the same call on another time origin: a constant shift of every timestamp
     return out
 
 
@@ -106,7 +110,7 @@ class Recorder:
             eid = len(self.events) + 1
             e = {"id": eid, "sid": self.sid, "call": call, "rel": rel, "lenient": lenient, "obs": obs,
                  "conc": json.dumps(cc, sort_keys=True), "judge": extra.get("judge", "all")}
-            for k in ("variant", "variant_label", "exp", "history"):
+            for k in ("variant", "variant_label", "exp", "history", "origin_shift"):
                 if k in extra:
                     e[k] = extra[k]
             if rel["kind"] == "base":
@@ -534,6 +538,22 @@ def extra_subsecond_shift(ctx, rec):
             rec.session(steps, dict(CONCS[rep % 2], tunit=0.5))
 
 
+def extra_far_origins(ctx, rec):
+    """C17: the same relative time axis on origins centuries apart (a shift by a constant too large for the model's
+    integers, so it is expressed through the concretisation): 1800, 1970, 2020, 2200 -- where nanosecond stamps leave
+    the range a double resolves"""
+    g = gen_qc.Gen(ctx.seed + 113, size=ctx.pick(8, 14))
+    origins = [7258118461, -5364662339, 0, 4102444800 + 3601]
+    for fn in ("roc", "flat", "att", "speed"):
+        for rep in range(ctx.pick(200, 1500) if fn == "flat" else ctx.pick(40, 300)):
+            c = g.base(fn)
+            steps = [({"kind": "base", "i": 0, "k": 0}, c)]
+            for tb in origins:
+                steps.append(({"kind": "recall", "i": 0, "k": 0}, json.loads(json.dumps(c)),
+                              {"conc": {"tbase": tb}, "origin_shift": True, "variant_label": "origin=%d" % tb}))
+            rec.session(steps, dict(CONCS[rep % 2]))
+
+
 def extra_repo_tests(ctx, rec):
     """the repository's own tests, run unmodified under the capture plugin: every recorded QC call that is exactly
     representable is validated like any other event (decimal data: ties lenient)"""
@@ -697,7 +717,7 @@ PLAN = {
                      M("locality", NOPRESS, ["perturb"], 3, budget=120000)]),
             "random": {"fns": NOPRESS, "count": (400, 6000),
                        "kinds": ["shiftv", "negate", "shiftt", "shiftboth", "reverse", "perturb", "perturb"], "size": (8, 24)},
-            "extra": [extra_subsecond_shift, extra_big_offsets]},
+            "extra": [extra_subsecond_shift, extra_big_offsets, extra_far_origins]},
 }
 
 RULES = {
